@@ -93,6 +93,7 @@ def build(spec: dict, tamper=None):
     data = header + ct + aead
     ranges["ct"] = (BLOCK, BLOCK + len(ct))
     ranges["tag"] = (BLOCK + len(ct) + 32, BLOCK + len(ct) + 32 + 16)
+    ranges["taglen"] = (BLOCK + len(ct) + 4088, BLOCK + len(ct) + 4089)  # low byte of the tag length: a shortened tag is an altered tag
     if tamper:
         region, pos_, x = tamper
         if region == "aad":
